@@ -123,6 +123,28 @@ struct LockModel {
     id: &'static str,
     prog: Vec<Vec<Op>>,
     try_point_limit: u32,
+    /// C02 only: number of read guards that were obtained and leaked (`mem::forget`) before the program starts;
+    /// written straight into the state word (2^30 real acquisitions are out of reach)
+    preset: u32,
+}
+
+const MAX_READERS: u32 = (1 << 30) - 2; // rwlock.rs: MASK - 1
+const SATURATED_MSG: &str = "too many active read locks";
+
+/// byte offset of the RwLock's state word, found by experiment (which word does a leaked read guard change?)
+fn rw_state_offset() -> usize {
+    static OFF: std::sync::OnceLock<usize> = std::sync::OnceLock::new();
+    *OFF.get_or_init(|| {
+        let l = Box::new(sync::RwLock::new(TrackedCell::new(0)));
+        let words = std::mem::size_of::<sync::RwLock<TrackedCell>>() / 4;
+        let p = &*l as *const _ as *const u32;
+        let before: Vec<u32> = (0..words).map(|i| unsafe { p.add(i).read() }).collect();
+        std::mem::forget(l.try_read().expect("fresh lock"));
+        let after: Vec<u32> = (0..words).map(|i| unsafe { p.add(i).read() }).collect();
+        let changed: Vec<usize> = (0..words).filter(|&i| before[i] != after[i]).collect();
+        assert!(changed.len() == 1 && after[changed[0]] == before[changed[0]] + 1, "MACHINERY: cannot locate the RwLock state word");
+        changed[0] * 4
+    })
 }
 
 fn prog_name(p: &[Vec<Op>]) -> String {
@@ -167,6 +189,10 @@ impl Model for LockModel {
                 h.mutex = Some(Box::new(sync::Mutex::new(TrackedCell::new(0))));
             } else {
                 h.rw = Some(Box::new(sync::RwLock::new(TrackedCell::new(0))));
+                if self.preset > 0 {
+                    let p = h.rw.as_deref().unwrap() as *const _ as *mut u8;
+                    unsafe { (p.add(rw_state_offset()) as *mut u32).write(self.preset) };
+                }
             }
         });
     }
@@ -219,6 +245,33 @@ impl Model for LockModel {
                 match op {
                     Op::L => body!(Some((*m).lock()), true),
                     Op::T => body!((*m).try_lock(), true),
+                    Op::R if self.preset > 0 => {
+                        // at saturation `read` reports the overflow by panicking with its own message: an allowed refusal
+                        match std::panic::catch_unwind(std::panic::AssertUnwindSafe(|| (*rw).read())) {
+                            Ok(g) => {
+                                if self.preset >= MAX_READERS {
+                                    ilv::flag_violation("read-admitted-beyond-max-readers", format!("read() returned a guard although {} read guards are outstanding (the maximum)", self.preset));
+                                }
+                                body!(Some(g), false)
+                            }
+                            Err(p) => {
+                                let msg = p.downcast_ref::<String>().cloned().or_else(|| p.downcast_ref::<&str>().map(|s| s.to_string())).unwrap_or_default();
+                                if !msg.contains(SATURATED_MSG) {
+                                    std::panic::resume_unwind(p);
+                                }
+                                let _ = ilv::end_call();
+                                HS.with(|h| h.borrow_mut().order.push_str(&format!("{tid}!")));
+                                false
+                            }
+                        }
+                    }
+                    Op::TR if self.preset >= MAX_READERS => {
+                        let g = (*rw).try_read();
+                        if g.is_some() {
+                            ilv::flag_violation("try_read-admitted-beyond-max-readers", format!("try_read() succeeded although {} read guards are outstanding (the maximum)", self.preset));
+                        }
+                        body!(g, false)
+                    }
                     Op::R => body!(Some((*rw).read()), false),
                     Op::W => body!(Some((*rw).write()), true),
                     Op::TR => body!((*rw).try_read(), false),
@@ -327,12 +380,13 @@ struct Class {
     desc: String,
     progs: Vec<Vec<Vec<Op>>>,
     budget: Budget,
+    preset: u32,
 }
 
 /// Many-thread programs (binary h-sync-wide): wake counts and batch sizes that only matter with dozens of
 /// parked threads.  One writer/locker plus k waiters, all schedules with at most one preemption.
 #[cfg(feature = "wide")]
-fn classes(id: &str, thorough: bool) -> Vec<Class> {
+fn classes(id: &str, thorough: bool, _lite: bool) -> Vec<Class> {
     let b = |p, d, w| Budget { p, d, w };
     let mut v = Vec::new();
     // quick: the canonical schedule (lowest runnable id first, lowest-id wake target) and every single departure from it
@@ -346,26 +400,26 @@ fn classes(id: &str, thorough: bool) -> Vec<Class> {
         if id == "C01" {
             let mut p = vec![vec![Op::LH]];
             p.extend(std::iter::repeat(vec![Op::L]).take(k));
-            v.push(Class { desc: format!("holder + {k} parked lockers"), progs: vec![p], budget: bud });
+            v.push(Class { desc: format!("holder + {k} parked lockers"), progs: vec![p], budget: bud, preset: 0 });
         } else {
             let mut p = vec![vec![Op::WH]];
             p.extend(std::iter::repeat(vec![Op::R]).take(k));
-            v.push(Class { desc: format!("write holder + {k} parked readers"), progs: vec![p], budget: bud });
+            v.push(Class { desc: format!("write holder + {k} parked readers"), progs: vec![p], budget: bud, preset: 0 });
             let mut p = vec![vec![Op::RH]];
             p.extend(std::iter::repeat(vec![Op::W]).take(k / 2));
             p.extend(std::iter::repeat(vec![Op::R]).take(k - k / 2));
-            v.push(Class { desc: format!("read holder + {} parked writers + {} parked readers", k / 2, k - k / 2), progs: vec![p], budget: bud });
+            v.push(Class { desc: format!("read holder + {} parked writers + {} parked readers", k / 2, k - k / 2), progs: vec![p], budget: bud, preset: 0 });
             let mut p = vec![vec![Op::WH]];
             p.extend(std::iter::repeat(vec![Op::W]).take(k / 2));
             p.extend(std::iter::repeat(vec![Op::R]).take(k - k / 2));
-            v.push(Class { desc: format!("write holder + {} parked writers + {} parked readers", k / 2, k - k / 2), progs: vec![p], budget: bud });
+            v.push(Class { desc: format!("write holder + {} parked writers + {} parked readers", k / 2, k - k / 2), progs: vec![p], budget: bud, preset: 0 });
         }
     }
     v
 }
 
 #[cfg(not(feature = "wide"))]
-fn classes(id: &str, thorough: bool) -> Vec<Class> {
+fn classes(id: &str, thorough: bool, lite: bool) -> Vec<Class> {
     let alpha: &[Op] = if id == "C01" { &[Op::L, Op::T] } else { &[Op::R, Op::W, Op::TR, Op::TW] };
     let w1 = words(alpha, 1);
     let w2 = words(alpha, 2);
@@ -393,41 +447,57 @@ fn classes(id: &str, thorough: bool) -> Vec<Class> {
     let observer_long = || -> Vec<Vec<Vec<Op>>> { vec![vec![vec![Op::L], vec![Op::D], vec![Op::T, Op::L]], vec![vec![Op::L, Op::L], vec![Op::D, Op::D], vec![Op::L]]] };
     if id == "C01" {
         if !thorough {
-            v.push(Class { desc: "2 threads x <=2 ops, stale reads".into(), progs: multisets(&w2, 2), budget: b(6, 2, 1) });
-            v.push(Class { desc: "3 threads x 1 op, stale reads".into(), progs: multisets(&w1, 3), budget: b(4, 2, 1) });
-            v.push(Class { desc: "3 threads x <=2 ops".into(), progs: multisets(&w2, 3), budget: b(3, 1, 0) });
-            v.push(Class { desc: "4 threads x 1 op".into(), progs: multisets(&w1, 4), budget: b(3, 1, 0) });
-            v.push(Class { desc: "4 threads, one with 2 ops".into(), progs: one_long(4), budget: b(2, 1, 0) });
+            v.push(Class { desc: "2 threads x <=2 ops, stale reads".into(), progs: multisets(&w2, 2), budget: b(6, 2, 1), preset: 0 });
+            v.push(Class { desc: "3 threads x 1 op, stale reads".into(), progs: multisets(&w1, 3), budget: b(4, 2, 1), preset: 0 });
+            v.push(Class { desc: "3 threads x <=2 ops".into(), progs: multisets(&w2, 3), budget: b(3, 1, 0), preset: 0 });
+            v.push(Class { desc: "4 threads x 1 op".into(), progs: multisets(&w1, 4), budget: b(3, 1, 0), preset: 0 });
+            v.push(Class { desc: "4 threads, one with 2 ops".into(), progs: one_long(4), budget: b(2, 1, 0), preset: 0 });
             // one call woken many times without winning: counters/tables indexed by the number of wake-ups
-            v.push(Class { desc: "2 threads x 1 op, up to 14 spurious futex returns".into(), progs: multisets(&w1, 2), budget: b(2, 14, 0) });
-            v.push(Class { desc: "3 threads x 1 op, up to 7 spurious futex returns".into(), progs: multisets(&w1, 3), budget: b(1, 7, 0) });
-            v.push(Class { desc: "observer: 2-3 threads x <=2 ops over {lock, try_lock, format the Mutex with {:?}}, at least one formatter".into(), progs: with_observer(2, 2).into_iter().chain(with_observer(3, 1)).chain(observer_long()).collect(), budget: b(3, 1, 0) });
+            v.push(Class { desc: "2 threads x 1 op, up to 14 spurious futex returns".into(), progs: multisets(&w1, 2), budget: b(2, 14, 0), preset: 0 });
+            v.push(Class { desc: "3 threads x 1 op, up to 7 spurious futex returns".into(), progs: multisets(&w1, 3), budget: b(1, 7, 0), preset: 0 });
+            v.push(Class { desc: "observer: 2-3 threads x <=2 ops over {lock, try_lock, format the Mutex with {:?}}, at least one formatter".into(), progs: with_observer(2, 2).into_iter().chain(with_observer(3, 1)).chain(observer_long()).collect(), budget: b(3, 1, 0), preset: 0 });
         } else {
-            v.push(Class { desc: "2 threads x <=3 ops, stale reads".into(), progs: multisets(&w3, 2), budget: b(6, 2, 2) });
-            v.push(Class { desc: "3 threads x <=2 ops, stale reads".into(), progs: multisets(&w2, 3), budget: b(3, 2, 1) });
-            v.push(Class { desc: "3 threads x <=2 ops, deeper preemption".into(), progs: multisets(&w2, 3), budget: b(4, 1, 0) });
-            v.push(Class { desc: "4 threads x 1 op, stale reads".into(), progs: multisets(&w1, 4), budget: b(3, 2, 1) });
-            v.push(Class { desc: "4 threads x 1 op, deeper preemption".into(), progs: multisets(&w1, 4), budget: b(4, 1, 0) });
-            v.push(Class { desc: "4 threads x <=2 ops".into(), progs: multisets(&w2, 4), budget: b(2, 1, 0) });
-            v.push(Class { desc: "5 threads x 1 op".into(), progs: multisets(&w1, 5), budget: b(2, 1, 0) });
-            v.push(Class { desc: "2 threads x 1 op, up to 20 spurious futex returns".into(), progs: multisets(&w1, 2), budget: b(2, 20, 0) });
-            v.push(Class { desc: "3 threads x 1 op, up to 10 spurious futex returns".into(), progs: multisets(&w1, 3), budget: b(1, 10, 0) });
-            v.push(Class { desc: "observer: 2-3 threads x <=2 ops, 4 threads x 1 op over {lock, try_lock, format the Mutex with {:?}}, at least one formatter".into(), progs: with_observer(2, 3).into_iter().chain(with_observer(3, 2)).chain(with_observer(4, 1)).collect(), budget: b(3, 1, 1) });
+            v.push(Class { desc: "2 threads x <=3 ops, stale reads".into(), progs: multisets(&w3, 2), budget: b(6, 2, 2), preset: 0 });
+            v.push(Class { desc: "3 threads x <=2 ops, stale reads".into(), progs: multisets(&w2, 3), budget: b(3, 2, 1), preset: 0 });
+            v.push(Class { desc: "3 threads x <=2 ops, deeper preemption".into(), progs: multisets(&w2, 3), budget: b(4, 1, 0), preset: 0 });
+            v.push(Class { desc: "4 threads x 1 op, stale reads".into(), progs: multisets(&w1, 4), budget: b(3, 2, 1), preset: 0 });
+            v.push(Class { desc: "4 threads x 1 op, deeper preemption".into(), progs: multisets(&w1, 4), budget: b(4, 1, 0), preset: 0 });
+            v.push(Class { desc: "4 threads x <=2 ops".into(), progs: multisets(&w2, 4), budget: b(2, 1, 0), preset: 0 });
+            v.push(Class { desc: "5 threads x 1 op".into(), progs: multisets(&w1, 5), budget: b(2, 1, 0), preset: 0 });
+            v.push(Class { desc: "2 threads x 1 op, up to 20 spurious futex returns".into(), progs: multisets(&w1, 2), budget: b(2, 20, 0), preset: 0 });
+            v.push(Class { desc: "3 threads x 1 op, up to 10 spurious futex returns".into(), progs: multisets(&w1, 3), budget: b(1, 10, 0), preset: 0 });
+            v.push(Class { desc: "observer: 2-3 threads x <=2 ops, 4 threads x 1 op over {lock, try_lock, format the Mutex with {:?}}, at least one formatter".into(), progs: with_observer(2, 3).into_iter().chain(with_observer(3, 2)).chain(with_observer(4, 1)).collect(), budget: b(3, 1, 1), preset: 0 });
         }
     } else if !thorough {
-        v.push(Class { desc: "2 threads x <=2 ops, stale reads".into(), progs: multisets(&w2, 2), budget: b(4, 1, 1) });
-        v.push(Class { desc: "3 threads x 1 op".into(), progs: multisets(&w1, 3), budget: b(3, 2, 0) });
-        v.push(Class { desc: "3 threads, one with 2 ops".into(), progs: one_long(3), budget: b(2, 1, 0) });
-        v.push(Class { desc: "4 threads x 1 op".into(), progs: multisets(&w1, 4), budget: b(2, 1, 0) });
-        v.push(Class { desc: "2 threads x 1 op, up to 12 spurious futex returns".into(), progs: multisets(&w1, 2), budget: b(2, 12, 0) });
+        v.push(Class { desc: "2 threads x <=2 ops, stale reads".into(), progs: multisets(&w2, 2), budget: b(4, 1, 1), preset: 0 });
+        v.push(Class { desc: "3 threads x 1 op".into(), progs: multisets(&w1, 3), budget: b(3, 2, 0), preset: 0 });
+        v.push(Class { desc: "3 threads, one with 2 ops".into(), progs: one_long(3), budget: b(2, 1, 0), preset: 0 });
+        v.push(Class { desc: "4 threads x 1 op".into(), progs: multisets(&w1, 4), budget: b(2, 1, 0), preset: 0 });
+        v.push(Class { desc: "2 threads x 1 op, up to 12 spurious futex returns".into(), progs: multisets(&w1, 2), budget: b(2, 12, 0), preset: 0 });
     } else {
-        v.push(Class { desc: "2 threads x <=2 ops, stale reads".into(), progs: multisets(&w2, 2), budget: b(6, 2, 2) });
-        v.push(Class { desc: "3 threads x 1 op, stale reads".into(), progs: multisets(&w1, 3), budget: b(4, 2, 1) });
-        v.push(Class { desc: "3 threads, one with 2 ops".into(), progs: one_long(3), budget: b(3, 1, 0) });
-        v.push(Class { desc: "4 threads x 1 op".into(), progs: multisets(&w1, 4), budget: b(3, 1, 0) });
-        v.push(Class { desc: "4 threads, one with 2 ops".into(), progs: one_long(4), budget: b(2, 0, 0) });
-        v.push(Class { desc: "2 threads x 1 op, up to 18 spurious futex returns".into(), progs: multisets(&w1, 2), budget: b(2, 18, 0) });
-        v.push(Class { desc: "3 threads x 1 op, up to 8 spurious futex returns".into(), progs: multisets(&w1, 3), budget: b(1, 8, 0) });
+        v.push(Class { desc: "2 threads x <=2 ops, stale reads".into(), progs: multisets(&w2, 2), budget: b(6, 2, 2), preset: 0 });
+        v.push(Class { desc: "3 threads x 1 op, stale reads".into(), progs: multisets(&w1, 3), budget: b(4, 2, 1), preset: 0 });
+        v.push(Class { desc: "3 threads, one with 2 ops".into(), progs: one_long(3), budget: b(3, 1, 0), preset: 0 });
+        v.push(Class { desc: "4 threads x 1 op".into(), progs: multisets(&w1, 4), budget: b(3, 1, 0), preset: 0 });
+        v.push(Class { desc: "4 threads, one with 2 ops".into(), progs: one_long(4), budget: b(2, 0, 0), preset: 0 });
+        v.push(Class { desc: "2 threads x 1 op, up to 18 spurious futex returns".into(), progs: multisets(&w1, 2), budget: b(2, 18, 0), preset: 0 });
+        v.push(Class { desc: "3 threads x 1 op, up to 8 spurious futex returns".into(), progs: multisets(&w1, 3), budget: b(1, 8, 0), preset: 0 });
+    }
+    if id == "C02" {
+        // start states next to reader saturation: MAX_READERS-k read guards already leaked; reader-only programs
+        // (a leaked guard never releases, so a writer would rightly wait for ever)
+        let readers = words(&[Op::R, Op::TR], 2);
+        for k in [0u32, 1, 2] {
+            let progs: Vec<Vec<Vec<Op>>> = (1..=3).flat_map(|n| multisets(&readers, n)).filter(|p| p.iter().map(|t| t.len()).sum::<usize>() <= if thorough { 5 } else { 4 }).collect();
+            v.push(Class { desc: format!("reader saturation: {} read guards leaked beforehand (maximum minus {k}), 1-3 reader-only threads", MAX_READERS - k), progs, budget: b(2, 1, 0), preset: MAX_READERS - k });
+        }
+    }
+    if lite {
+        // second build profile (no debug assertions / overflow checks): same programs, the cheaper half of the budgets
+        v.retain(|c| !c.desc.contains("spurious futex returns") && !c.desc.contains("4 threads, one with 2 ops"));
+        for c in v.iter_mut() {
+            c.budget = Budget { p: c.budget.p.min(3), d: c.budget.d.min(1), w: 0 };
+        }
     }
     v
 }
@@ -450,7 +520,12 @@ fn run_lock(id: &'static str, args: &Args) -> Report {
         let v: Vec<u8> = args.rest[i + 1].split(',').map(|x| x.parse().unwrap()).collect();
         Budget { p: v[0], d: v[1], w: v[2] }
     });
-    for mut class in classes(id, args.thorough) {
+    let lite = args.rest.iter().any(|a| a == "--lite");
+    if id == "C02" {
+        // located once, outside any execution (inside one the lock operations are scheduling points)
+        let _ = rw_state_offset();
+    }
+    for mut class in classes(id, args.thorough, lite) {
         if let Some(b) = budget_override {
             class.budget = b;
         }
@@ -458,13 +533,13 @@ fn run_lock(id: &'static str, args: &Args) -> Report {
         let mut cs = 0u64;
         let mut ct = 0u64;
         for prog in &class.progs {
-            let name = prog_name(prog);
+            let name = if class.preset > 0 { format!("{}@{}", prog_name(prog), class.preset) } else { prog_name(prog) };
             if let Some(o) = &only {
                 if *o != name {
                     continue;
                 }
             }
-            let model = LockModel { id, prog: prog.clone(), try_point_limit: 40 };
+            let model = LockModel { id, prog: prog.clone(), try_point_limit: 40, preset: class.preset };
             let cfg = Config { budget: class.budget, max_steps: 5_000, workers: n_workers(), max_schedules: 0, stop_at_first: false, max_seconds: class_cap };
             let st = ilv::explore(&model, &cfg);
             if !determinism_checked {
@@ -506,7 +581,7 @@ fn run_lock(id: &'static str, args: &Args) -> Report {
                 r.violation(
                     &format!("{id}:{kind}"),
                     format!("program {name} budget P{} D{} W{}: {} ({} of {} schedules)", class.budget.p, class.budget.d, class.budget.w, v.desc, v.count, st.schedules),
-                    json!({"lock": id, "program": name, "budget": [class.budget.p, class.budget.d, class.budget.w], "choices": choices_json(&v.choices)}),
+                    json!({"lock": id, "program": name, "budget": [class.budget.p, class.budget.d, class.budget.w], "preset": class.preset, "choices": choices_json(&v.choices)}),
                 );
             }
             if r.samples.len() < 6 && st.schedules > 50 {
@@ -543,12 +618,15 @@ fn run_lock(id: &'static str, args: &Args) -> Report {
 
 fn replay_lock(v: &serde_json::Value) -> i32 {
     let id: &'static str = if v["lock"].as_str() == Some("C01") { "C01" } else { "C02" };
-    let prog: Vec<Vec<Op>> = v["program"].as_str().unwrap().split('|').map(|t| t.chars().map(Op::from_char).collect()).collect();
+    let prog: Vec<Vec<Op>> = v["program"].as_str().unwrap().split('@').next().unwrap().split('|').map(|t| t.chars().map(Op::from_char).collect()).collect();
     let b = v["budget"].as_array().unwrap();
     let budget = Budget { p: b[0].as_u64().unwrap() as u8, d: b[1].as_u64().unwrap() as u8, w: b[2].as_u64().unwrap() as u8 };
     let choices: Vec<(u16, u16)> =
         v["choices"].as_array().unwrap().iter().map(|x| (x[0].as_u64().unwrap() as u16, x[1].as_u64().unwrap() as u16)).collect();
-    let model = LockModel { id, prog, try_point_limit: 40 };
+    if id == "C02" {
+        let _ = rw_state_offset();
+    }
+    let model = LockModel { id, prog, try_point_limit: 40, preset: v["preset"].as_u64().unwrap_or(0) as u32 };
     let (end, label, viol, trace) = ilv::replay(&model, budget, 5_000, &choices);
     for l in &trace {
         println!("{l}");
